@@ -1005,7 +1005,9 @@ class Tifa(TifaCore, ast.NodeVisitor):
 
     def visit_Constant(self, node) -> Type:
         """ Handle new 3.8's Constant node """
-        return get_pedal_type_from_value(node.value, self.evaluate_type)
+        # Literals never need a name looked up; the ones without a Pedal type
+        # (``...``, bytes) are simply unknown values
+        return get_pedal_type_from_value(node.value)
 
     def visit_Return(self, node):
         """
